@@ -17,7 +17,7 @@ ASSUMPTIONS = ["values fit in b bits and are non-negative; window sizes satisfy 
 ANCHORS = ["bitarray.py::BitArray.pack", "bitarray.py::BitArray.unpack", "bitarray.py::BitArray.__getitem__", "bitarray.py::BitArray.sliding_window"]
 BITS = [1, 2, 4, 8, 16, 32, 64]
 DTS = ["int8", "int16", "int32", "int64", "uint8", "uint16", "uint32", "uint64", ">i8", ">u8", ">i4", ">u2"]      # also non-native byte order
-FLOOR_TAGS = ["b:%d" % b for b in BITS] + ["len:multiple", "len:multiple+1", "len:multiple-1", "len:<register", "w:1", "w:full", "w:mid", "style:rand", "style:ones", "style:alt",
+FLOOR_TAGS = ["b:%d" % b for b in BITS] + ["len:multiple", "len:multiple+1", "len:multiple-1", "len:<register", "w:1", "w:full", "w:mid", "style:rand", "style:ones", "style:alt", "style:sparse", "style:burst",
                                            "straddle", "twin", "wtype:numpy", "w*b:54..63", "huge", "window-sizes-vary"]
 FLOOR_MONITORS = ["c13:unpack", "c13:getint", "c13:getlist", "c13:window", "c13:unpack-again"]
 FP_STRICT = True       # a floating-point event inside the library that the dense computation does not have is a violation (shard.FpMonitor)
@@ -145,6 +145,13 @@ def run(case):
             o = attempt(lambda: int(ba[list(pos)][k]))
             if not o.ok or o.value != e[k]:
                 return "packed[%s][%d] gives %s, expected %d" % (short(pos, 80), k, repr(o) if not o.ok else o.value, e[k])
+            # ... and can be indexed with a list again: a run of consecutive positions that does not start at its beginning, and a scattered list
+            if len(e) >= 3:
+                a2 = 1 + (len(e) + L) % max(1, min(per, len(e) - 2))
+                for sub in (list(range(a2, len(e))), list(range(len(e) - 1, -1, -2))):
+                    o = attempt(lambda: np.asarray(ba[list(pos)][sub].unpack()).tolist())
+                    if not o.ok or o.value != [e[q] for q in sub]:
+                        return "packed[%s][%s].unpack() gives %s, expected %s" % (short(pos, 60), short(sub, 60), repr(o) if not o.ok else short(o.value, 100), short([e[q] for q in sub], 100))
 
     wcalls = [0]
 
@@ -207,12 +214,32 @@ def values(rng, b, L, style):
         return [(2 ** b - 1) if i % 2 == 0 else 0 for i in range(L)]
     if style == "zero":
         return [0] * L
+    if style in ("sparse", "burst"):
+        # almost everything zero (far fewer than one entry in 64 set): a few isolated entries, pairs that share a 64-bit register, a burst of
+        # consecutive non-zero entries that crosses a register boundary (two neighbouring registers occupied, all others empty)
+        out = [0] * L
+        per = 64 // b
+        top = 2 ** b - 1
+        val = lambda: rng.choice([top, 1, rng.randint(1, top)])
+        if style == "sparse":
+            for _ in range(rng.randint(1, 3)):
+                i = rng.randrange(L)
+                out[i] = val()
+                if rng.random() < 0.7:
+                    j = min(L - 1, i + rng.randint(1, max(1, per - 1)))       # a second entry nearby, usually in the same register
+                    out[j] = val()
+        else:
+            k = rng.randrange(max(1, L // per)) * per if L > per else 0      # a register boundary
+            a = max(0, k - rng.randint(1, max(1, per // 2)))
+            for i in range(a, min(L, k + rng.randint(1, max(1, per // 2)))):
+                out[i] = val()
+        return out
     return [rng.randrange(2 ** b) for _ in range(L)]
 
 
 def gen_case(rng, b, L, w=None, style=None, dtype=None):
     per = 64 // b
-    style = style or rng.choice(["rand", "rand", "ones", "alt", "zero"])
+    style = style or rng.choice(["rand", "rand", "ones", "alt", "zero", "sparse", "burst"])
     dts = [d for d in DTS if np.iinfo(d).max >= 2 ** b - 1]
     dtype = dtype or rng.choice(dts)
     w = w or (rng.randint(1, min(per, L)) if rng.random() < 0.75 else max(1, per - rng.randint(0, min(10, per - 1))))     # windows of nearly a whole register too
@@ -245,6 +272,8 @@ def directed():
     rng = random.Random(1313)
     for c in huge_cases():
         yield c
+    for c in sparse_cases():
+        yield c
     for b in BITS:
         per = 64 // b
         for L in [1, 2, per - 1, per, per + 1, 2 * per, 2 * per + 1, 3 * per + 1]:
@@ -254,6 +283,23 @@ def directed():
                 for w in sorted({1, 2, per // 2, per - 1, per}):
                     if 1 <= w <= min(L, per):
                         yield gen_case(rng, b, L, w, style)
+
+
+def sparse_cases():
+    """hundreds of registers, nearly all of them empty"""
+    import random
+    rng = random.Random(1314)
+    for b in BITS:
+        per = 64 // b
+        for nreg in (130, 200, 300):
+            for style in ("sparse", "burst"):
+                for _ in range(2):
+                    L = nreg * per + rng.choice([0, 1, per // 2])
+                    c = gen_case(rng, b, L, style=style)
+                    nz = [i for i, v in enumerate(c["vals"]) if v]
+                    if nz:
+                        c["pos"] = sorted(set(nz + [max(0, nz[0] - 1), min(L - 1, nz[-1] + 1), 0, L - 1]))[:40] + [nz[0], nz[0]]      # look-ups that name the occupied positions (also twice)
+                    yield c
 
 
 def sweep(tier):
